@@ -66,6 +66,8 @@ def observe(prog, n, kmax, as_source=False, nested=False, close_at=None):
         except fl.Watchdog:
             res["timeout"] = True
             TIMEOUTS[0] += 1
+        except Exception as exc:    # noqa  (the real pipeline raised: reported by the caller)
+            res["raised"] = exc_name(exc)
         if hasattr(gen, "close"):
             before = src.pulled
             gen.close()
@@ -97,15 +99,22 @@ def replay(ctx, rec):
             if TIMEOUTS[0] >= 3:
                 raise TooManyTimeouts()
             continue
-        if r["out"] != exp_out:
+        if r["out"] != exp_out or r.get("raised"):
             ok = False
-            ctx.violation("output:%s" % kinds(prog), dict(where, expected=exp_out, observed=r["out"]))
+            ctx.violation("output:%s" % kinds(prog), dict(where, expected=exp_out, observed=r["out"],
+                                                          raised=r.get("raised")))
             continue
         over = [j for j in range(len(pulls)) if r["pulls"][j] > pulls[j]]
         if over:
             ok = False
             ctx.violation("eager:%s" % kinds(prog),
                           dict(where, delivery=over[0] + 1, spec_pulls=pulls, impl_pulls=r["pulls"]))
+        if rec["exhausted"] and r.get("exhausted") and r["end"] > rec["endpos"]:
+            # asked for a result that does not exist: the machine (islice consumes to its stop, Count one
+            # look-ahead, Split one block) learns that from endpos values; reading further is not lazy
+            ok = False
+            ctx.violation("eager-at-end:%s" % kinds(prog),
+                          dict(where, spec_end_pulls=rec["endpos"], impl_end_pulls=r["end"]))
         if r.get("pulled_by_close"):
             ok = False
             ctx.violation("pull-on-close:%s" % kinds(prog), dict(where, observed=r))
@@ -114,7 +123,7 @@ def replay(ctx, rec):
         r = observe(prog, n, kmax, close_at=k)
         ctx.evaluations += 1
         lim = pulls[k - 1] if k else 0
-        if r["out"] != exp_out[:k] or r["end"] > lim:
+        if r["out"] != exp_out[:k] or r["end"] > lim or r.get("raised"):
             ok = False
             ctx.violation("stop-at-k:%s" % kinds(prog),
                           {"prog": prog, "n": n, "k": k, "allowed_pulls": lim, "observed": r})
@@ -129,11 +138,15 @@ def replay_negslice(ctx, rec, lena):
     refs = []
     src2 = src
 
+    peak = [0]
+
     class Tap(object):
         def __iter__(self):
             return self
 
         def __next__(self):
+            # values alive at the moment the element asks for one more
+            peak[0] = max(peak[0], sum(1 for r in refs if r() is not None))
             o = next(src2)
             refs.append(weakref.ref(o))
             return o
@@ -155,9 +168,14 @@ def replay_negslice(ctx, rec, lena):
     over = [j for j in range(len(pulls)) if pulls[j] > rec["pulls"][j]]
     if over:
         ctx.violation(key + ":eager", {"args": [a, b, s], "n": n, "spec_pulls": rec["pulls"], "impl_pulls": pulls})
-    # values kept alive: the |index| it documents (+1 for the value being handed over)
-    if alive and max(alive) > bound + 1:
-        ctx.violation(key + ":held", {"args": [a, b, s], "n": n, "alive": alive, "bound": bound})
+    if src.pulled > rec["endpos"]:
+        ctx.violation(key + ":eager-at-end", {"args": [a, b, s], "n": n, "spec_end_pulls": rec["endpos"],
+                                              "impl_end_pulls": src.pulled})
+    # values kept alive: the |index| it documents (+1 for the value being handed over), at every
+    # delivery and at every moment the element pulls
+    if max(alive + [peak[0]]) > bound + 1:
+        ctx.violation(key + ":held", {"args": [a, b, s], "n": n, "alive_at_deliveries": alive,
+                                      "peak_alive_at_pull": peak[0], "bound": bound})
 
 
 def run(ctx):
@@ -198,7 +216,9 @@ def run(ctx):
     alphabet = ["map", "map", "filter", "slice", "lagk", "count", "runif", "split"]
     trace = []
     ntr = 1200 if ctx.thorough else 250
-    while len(trace) < ntr:
+    attempts = 0
+    while len(trace) < ntr and attempts < 2 * ntr:
+        attempts += 1
         prog = [fl.random_stage(rnd, alphabet) for _ in range(rnd.randint(1, 6))]
         for st in prog:
             if st["t"] == "split":
@@ -208,8 +228,11 @@ def run(ctx):
         if r.get("timeout"):
             ctx.violation("no-termination:%s" % kinds(prog), {"prog": prog, "n": n})
             break
+        if r.get("raised"):
+            ctx.violation("random-run:raised:%s" % r["raised"], {"prog": prog, "n": n})
+            continue
         trace.append({"prog": prog, "n": n, "pairs": True, "out": r["out"], "pulls": r["pulls"], "lazy": True})
-    acc = ctx.validate("Trace_Flow", "Trace_Flow.cfg", trace)
+    acc = ctx.validate("Trace_Flow", "Trace_Flow.cfg", trace) if trace else 0
     ctx.traces += acc
     ctx.evaluations += len(trace)
     for r in trace[:acc]:
@@ -217,14 +240,16 @@ def run(ctx):
     if acc < len(trace):
         r = trace[acc]
         ctx.violation("Trace_Flow:rejected:%s" % kinds(r["prog"]), {"record": r, "index": acc})
-    ctx.sample({"recorded_trace_record": trace[min(5, len(trace) - 1)]})
-    bad = [dict(r) for r in trace[:40]]
-    k = next(i for i, r in enumerate(bad) if r["pulls"] and r["pulls"][0] < r["n"])
-    bad[k] = dict(bad[k], pulls=[p + 1 for p in bad[k]["pulls"]])
-    acc2 = ctx.validate("Trace_Flow", "Trace_Flow.cfg", bad, label="corrupt")
-    if acc2 != k:
-        raise core.MachineryError("Trace_Flow does not bind pulls: corrupted %d accepted %d" % (k, acc2))
-    ctx.extra["binding_demo"] = "record %d with every pull count increased by one is rejected at index %d" % (k, acc2)
+    if trace:
+        ctx.sample({"recorded_trace_record": trace[min(5, len(trace) - 1)]})
+    if trace and acc == len(trace) and not ctx.violations:
+        bad = [dict(r) for r in trace[:40]]
+        k = next(i for i, r in enumerate(bad) if r["pulls"] and r["pulls"][0] < r["n"])
+        bad[k] = dict(bad[k], pulls=[p + 1 for p in bad[k]["pulls"]])
+        acc2 = ctx.validate("Trace_Flow", "Trace_Flow.cfg", bad, label="corrupt")
+        if acc2 != k:
+            raise core.MachineryError("Trace_Flow does not bind pulls: corrupted %d accepted %d" % (k, acc2))
+        ctx.extra["binding_demo"] = "record %d with every pull count increased by one is rejected at index %d" % (k, acc2)
     return ctx.finish(
         rule="S2C: all streaming programs of the bounded model x finite/infinite sources, each as Sequence, "
              "Source tail and nested, plus every consumer stop point k; negative-index Slice scenarios of "
